@@ -346,6 +346,101 @@ def event_matches(prog):
     return out
 
 
+_SEARCHES = r"iter::traits::iterator::Iterator::(find_map|find|any|position|try_for_each|for_each|try_fold|fold|filter_map|map)$"
+
+
+def _iterator_chain(prog, body, op, depth=0):
+    """[(callee decl, [closure bodies])] of the adaptor calls producing an iterator operand, innermost last; follows local functions
+    that return the iterator"""
+    out = []
+    if depth > 6:
+        return out
+    for o in origins(body, op, transparent=("core::iter::traits::collect::IntoIterator::into_iter",)):
+        if o.kind != "call":
+            continue
+        d = callee_decl(o.data)
+        clos = [prog.by_target[body.target].get(fa) or prog.by_target["lib"].get(fa) for fa in (o.data.get("fn_args") or [])]
+        clos = [c for c in clos if c is not None]
+        tgt = prog.body_for_callee(o.data, body) if d != "<indirect>" else None
+        if tgt is not None and tgt.kind != "closure":
+            out += _iterator_chain(prog, tgt, {"c": {"l": 0, "p": []}}, depth + 1)
+            continue
+        out.append((d, clos))
+        if o.site.node["args"]:
+            out += _iterator_chain(prog, body, o.site.node["args"][0], depth + 1)
+    return out
+
+
+def _arm_values(b, sw, adt, names, what):
+    """for the switch on the event enum in closure b: the variants (of `names`) on whose arm `what(region)` holds"""
+    idx = {v["name"]: str(v["idx"]) for v in adt["variants"]}
+    t = sw.node
+    out = set()
+    for vname in names:
+        tgt = None
+        for val, bb in t["targets"]:
+            if val == idx[vname]:
+                tgt = bb
+        if tgt is None:
+            tgt = t["otherwise"]
+        region = {tgt} | b.blocks_reachable_from(tgt, avoid={sw.bb})
+        if what(region):
+            out.add(vname)
+    return out
+
+
+def _closure_scan(prog, b, sw, adt, upd):
+    """a closure matching on the event enum handed to a searching adaptor (find_map & co.) over the log: (update variants at which
+    the scan stops, update variants on whose arm an answer is built); None when the closure is not such a scan"""
+    par = None
+    for x in prog.bodies_in(b.target):
+        if b.parent and x.path == b.parent["direct"]:
+            par = x
+    if par is None:
+        return None
+    use = None
+    for cs in par.calls():
+        c = callee_of(cs)
+        if c is not None and b.path in (c.get("fn_args") or []) and callee_matches(c, _SEARCHES):
+            use = cs
+    if use is None:
+        return None
+    if _ops_called(prog, b, set(b.reachable)):
+        return None  # a replay written with for_each: log-and-replay
+    chain = _iterator_chain(prog, par, use.node["args"][0])
+    barrier = set()
+    for d, clos in chain:
+        if re.search(r"Iterator::(take_while|map_while)$", d):
+            for cl in clos:
+                for sw2 in switch_sites(cl):
+                    subj = switch_subject(cl, sw2)
+                    if not subj or not subj[1]:
+                        continue
+                    ty = place_ty(cl, subj[0]).replace("&", "").strip()
+                    if not (ty.startswith(adt["path"] + "<") or ty == adt["path"]):
+                        continue
+
+                    def stops(region, cl=cl):
+                        vals = set()
+                        for x in region:
+                            for st in cl.blocks[x]["stmts"]:
+                                if st["k"] == "assign" and st["dst"]["l"] == 0 and not st["dst"]["p"]:
+                                    if st["rv"]["k"] == "use" and op_const(st["rv"]["ops"][0]) is not None and "bool" in op_const(st["rv"]["ops"][0]):
+                                        vals.add(op_const(st["rv"]["ops"][0])["bool"])
+                                    elif st["rv"]["k"] == "aggregate" and st["rv"]["agg"].get("variant") == "None":
+                                        vals.add(False)
+                                    else:
+                                        vals.add("?")
+                        return vals == {False}
+
+                    barrier |= _arm_values(cl, sw2, adt, sorted(upd), stops)
+
+    def answers(region):
+        return any(st["k"] == "assign" and st["rv"]["k"] == "aggregate" and st["rv"]["agg"].get("variant") == "Some" for x in region for st in b.blocks[x]["stmts"])
+
+    return barrier, _arm_values(b, sw, adt, sorted(upd), answers)
+
+
 def rule_cache_barriers(ctx):
     prog = ctx.prog
     r = ctx.rule(
@@ -370,6 +465,16 @@ def rule_cache_barriers(ctx):
                 if not ty.startswith(epath + "<") and ty != epath:
                     continue
                 loops = b.in_loop(sw.bb)
+                if not loops and b.kind == "closure":
+                    res = _closure_scan(prog, b, sw, adt, upd)
+                    if res is not None:
+                        n_scans += 1
+                        barrier, answers = res
+                        for vname in sorted(upd):
+                            anchor = "%s|%s" % (b.id, vname)
+                            r.check(vname in barrier, anchor, "continues-scan", "update event %s ends the scan (the iterator is cut at the first event that is not a query result)" % vname, "the scan continues past the update event %s: an answer cached before the update can be returned after it" % vname, sw.loc())
+                            r.check(vname not in answers, anchor, "answers", "no answer is produced on the %s arm" % vname, "an answer is produced on the update event %s" % vname, sw.loc())
+                    continue
                 if not loops:
                     continue  # not a scan of the log
                 if any(_ops_called(prog, b, _arm_region(b, sw, bb2)) for v2, bb2 in sw.node["targets"] if {str(x["idx"]): x["name"] for x in adt["variants"]}.get(v2) in upd):
@@ -447,9 +552,20 @@ def rule_log_and_replay(ctx):
     # replay functions: bodies with a closure (or loop) matching on the event enum and applying encoder operations
     replays = [(epath, upd, idx, b, sw) for epath, upd, idx, b, sw, kind in event_matches(prog) if kind == "replay"]
     r.floor(len(replays), 2, "replay matches (one per buffered encoder)")
+    lifted = {}
     for epath, upd, idx, b, sw in replays:
         t = sw.node
         fn = prog.enclosing_fn(b)
+        # the function holding the replay cursor: the one matching on the events, or the one that loops over the log and hands each
+        # event to it
+        for _ in range(3):
+            if any(callee_matches(callee_of(s), r"^core::cell::Cell::(get|set)$") for y in prog.with_closures(fn) for s in y.calls()):
+                break
+            ups = {prog.enclosing_fn(cs.body).id: prog.enclosing_fn(cs.body) for cs in prog.callers_of(fn)}
+            if len(ups) != 1:
+                break
+            fn = next(iter(ups.values()))
+        lifted[b.id] = fn
         for val, bb in t["targets"]:
             vname = idx.get(val)
             if vname not in upd:
@@ -469,7 +585,7 @@ def rule_log_and_replay(ctx):
             set_from_len = any(callee_matches(callee_of(c), r"^alloc::vec::Vec::len$") for c in calls)
         r.check(ok_get and ok_set and set_from_len, fn.id + "|cursor", "cursor", "replay starts at the cursor and sets it to the log length on every path", "the replay does not advance its cursor to the end of the log on every path (events would be replayed twice or skipped)", fn.loc())
     # queries replay before solving
-    replay_paths = {prog.enclosing_fn(b).path for _, _, _, b, _ in replays}
+    replay_paths = {lifted[b.id].path for _, _, _, b, _ in replays} | {prog.enclosing_fn(b).path for _, _, _, b, _ in replays}
     n_q = 0
     for imp in dyn_impls(prog):
         sadt = imp.get("self_adt")
@@ -478,16 +594,30 @@ def rule_log_and_replay(ctx):
                 if i2.get("self_adt") != sadt:
                     continue
                 for m in i2["methods"]:
-                    qb = prog.lib(m["path"])
-                    if qb is None:
+                    qb0 = prog.lib(m["path"])
+                    if qb0 is None:
                         continue
-                    solves = [s for s in qb.calls() if callee_matches(callee_of(s), r"SatSolver::solve(_under_assumptions)?$|maximal_extension_computer::MaximalExtensionComputer::compute_next$|maximal_extension_computer::new_for_preferred_semantics$")]
-                    if not solves:
-                        continue
-                    n_q += 1
-                    reps = [s for s in qb.calls() if strip_generics(callee_name(callee_of(s)) or "") in {strip_generics(p) for p in replay_paths}]
-                    ok = bool(reps) and all(any(qb.dominates(rp, s) for rp in reps) for s in solves)
-                    r.check(ok, qb.id, "solve-before-replay", "pending updates are replayed before every SAT call of the query", "a SAT call of the query is not preceded by the replay of pending updates", qb.loc())
+                    # the method itself and the private helpers of its type it calls (a helper shared by both query kinds)
+                    group = [qb0]
+                    for x in prog.reachable_from([qb0], virtual_dispatch=False).values():
+                        if x is not qb0 and x.kind != "closure" and x.impl and x.impl.get("self_adt") == sadt and not x.impl.get("trait") and x not in group:
+                            group.append(x)
+                    counted = False
+                    for qb in group:
+                        solves = [s for s in qb.calls() if callee_matches(callee_of(s), r"SatSolver::solve(_under_assumptions)?$|maximal_extension_computer::MaximalExtensionComputer::compute_next$|maximal_extension_computer::new_for_preferred_semantics$")]
+                        if not solves:
+                            continue
+                        if not counted:
+                            n_q += 1
+                            counted = True
+                        reps = [s for s in qb.calls() if strip_generics(callee_name(callee_of(s)) or "") in {strip_generics(p) for p in replay_paths}]
+                        ok = bool(reps) and all(any(qb.dominates(rp, s) for rp in reps) for s in solves)
+                        if not ok and qb is not qb0:
+                            # replayed by the entry point before it calls the helper
+                            calls_h = [s for s in qb0.calls() if prog.body_for_callee(callee_of(s), qb0) is qb]
+                            reps0 = [s for s in qb0.calls() if strip_generics(callee_name(callee_of(s)) or "") in {strip_generics(p) for p in replay_paths}]
+                            ok = bool(calls_h) and all(any(qb0.dominates(rp, s) for rp in reps0) for s in calls_h)
+                        r.check(ok, qb.id, "solve-before-replay", "pending updates are replayed before every SAT call of the query", "a SAT call of the query is not preceded by the replay of pending updates", qb.loc())
     r.floor(n_q, 5, "query methods with SAT calls in buffered dynamic solvers")
 
 
@@ -512,13 +642,17 @@ def rule_cache_kinds(ctx):
                 if b is None:
                     continue
                 n += 1
-                reach = prog.reachable_from([b], virtual_dispatch=False)
+                from .accept import _const_reach
+
+                # constant-aware: a helper shared by both kinds and told which one it serves (a bool or an enum constant) only
+                # counts with the branches that constant selects
+                _, edges = _const_reach(prog, [b])
                 bad = []
-                for x in reach.values():
+                for x, s, _t in edges:
                     # stay inside the methods of this trait and the helpers: another acceptance trait's methods are judged on their own
                     if x.impl and x.impl.get("trait") in (CRED, SKEP) and x.impl.get("trait") != tr:
                         continue
-                    for s in x.calls():
+                    if True:
                         nm = strip_generics(callee_name(callee_of(s)) or "")
                         if re.search(r"^dynamics::.*BufferedDynamicConstraintsEncoder::is_%s_accepted$" % ("credulously" if other == "credulous" else "skeptically"), nm):
                             bad.append(s)
